@@ -38,6 +38,14 @@ func mkDesc(a absDesc, r *rand.Rand, viaDecode bool) scte35.SegmentationDescript
 			s.SetAdjustPTS(gots.PTS(a.PTS))
 		}
 	}
+	if !a.HasPTS && r != nil && r.Intn(2) == 0 {
+		// a signal that carries a time value but is flagged as having none: it still "has no PTS"
+		cmd := scte35.CreateTimeSignalCommand()
+		cmd.SetHasPTS(true)
+		s.SetCommandInfo(cmd)
+		s.SetPTS(gots.PTS(a.PTS))
+		cmd.SetHasPTS(false)
+	}
 	d := scte35.CreateSegmentationDescriptor()
 	d.SetTypeID(scte35.SegDescType(a.Type))
 	d.SetEventID(uint32(a.Eid))
@@ -90,7 +98,7 @@ var c19Types = []int{0x10, 0x11, 0x12, 0x13, 0x14, 0x17, 0x19, 0x20, 0x21, 0x22,
 
 func c19Rand(r *rand.Rand) absDesc {
 	a := absDesc{Type: c19Types[r.Intn(len(c19Types))], Eid: 1 + r.Intn(2), HasPTS: r.Intn(5) != 0,
-		PTS: []uint64{1000, 2000, 1 << 32, 1<<33 - 1}[r.Intn(4)], SegNum: 1 + r.Intn(2), SegExp: 1 + r.Intn(2),
+		PTS: []uint64{1000, 2000, 1 << 32, 1<<33 - 1, 0, 1000}[r.Intn(6)], SegNum: 1 + r.Intn(2), SegExp: 1 + r.Intn(2),
 		SubNum: 1 + r.Intn(2), SubExp: 1 + r.Intn(2)}
 	if r.Intn(3) == 0 {
 		a.Type = r.Intn(256)
